@@ -50,6 +50,44 @@ let handle case obs =
           let failed = names (Model.failed (Model.c10_api_checks r (bool_of_tok ret) (bool_of_tok chg))) in
           ([tok_of_bool (Model.api_predict_returns r); chg], failed)
         | _ -> (["-"], ["malformed_observation"])))
+  | ["api2"; _mode; o1; o2] ->
+    let op_of t =
+      let c () = nat_of_int (int_of_string (Stdlib.String.sub t 2 (Stdlib.String.length t - 2))) in
+      match Stdlib.String.sub t 0 2 with
+      | "SD" | "DI" -> Model.AStart (true, c ())
+      | "SA" | "AC" -> Model.AStart (false, c ())
+      | "RS" -> Model.ARestart (c ())
+      | "SR" -> Model.ASetRemote (c ())
+      | "AR" -> Model.AAddRemote
+      | "CL" | "GC" -> Model.AClose
+      | "GR" -> Model.AGetRemote
+      | "GL" -> Model.AGetLocal
+      | _ -> failwith ("bad op " ^ t) in
+    let res_of t =
+      if t = "ok" then Model.AOk else if t = "multi" then Model.AMulti else if t = "closed" then Model.AClosed
+      else if Stdlib.String.length t > 1 && t.[0] = 'c' then
+        Model.ACred (nat_of_int (int_of_string (Stdlib.String.sub t 1 (Stdlib.String.length t - 1))))
+      else Model.AOther in
+    let tok_of = function
+      | Model.AOk -> "ok" | Model.AMulti -> "multi" | Model.AClosed -> "closed"
+      | Model.ACred c -> "c" ^ string_of_int (int_of_nat c) | Model.AOther -> "err" in
+    let a1 = op_of o1 and a2 = op_of o2 in
+    (match obs with
+     | ["TIMEOUT"] -> (["-"], ["terminates"])
+     | [r1; r2; rc; lc; cs] ->
+       if r1 = "PANIC" || r2 = "PANIC" then (["-"], ["no_panic"]) else begin
+         let failed = names (Model.failed (Model.c10_api2_checks a1 a2 (res_of r1) (res_of r2)
+                                             (nat_of_int (int_of_string rc)) (nat_of_int (int_of_string lc))
+                                             (nat_of_int (int_of_string cs)))) in
+         (* the outcome depends on which call is served first: the model side echoes the observation
+            when some serial order explains it, and shows the first serial outcome otherwise *)
+         if failed = [] then (obs, [])
+         else begin
+           let ((x1, x2), _) = Model.api2_outcomes a1 a2 in
+           ([tok_of x1; tok_of x2; "?"; "?"; "?"], failed)
+         end
+       end
+     | _ -> (["-"], ["malformed_observation"]))
   | ["apienv"] -> (["OK"], [])
   | _ -> failwith "unknown case"
 let () = Driverlib.run handle
